@@ -1,10 +1,11 @@
 """C13 — schema version/root identifiers are pure functions of the definitions (2-safety under order and map iteration)."""
-REDIR = {"github.com/sourcenetwork/defradb/internal/db.generateSetID": "vGenerateSetID"}
+REDIR = {"encoding/json.Marshal": "vCanonMarshal", "github.com/sourcenetwork/defradb/internal/core/cid.NewSHA256CidV1": "vIdentityCid"}
 
 
 SHAPES = {
     # fixed shapes beyond the exhaustive bound (schema:relations, X/Y/Z are undefined types)
     "pair": "A:B|B:A",
+    "pair-names-equal-ignoring-case": "A:a|a:A",
     "three-cycle": "A:B|B:C|C:A",
     "self-and-pair": "A:A|B:C|C:B",
     "hub-left-leaf": "H:L,H,X|L:H|O:Y",
@@ -34,7 +35,7 @@ PROPERTY = {
                 "overrides": {"github.com/sourcenetwork/defradb/client.CborNil": "bytes:f6"}, "witnesses": {"quick": 8, "thorough": 24}}],
     "bounds": {"fixed shapes": "pair, three-cycle, self+pair, hub with undefined leaf + unrelated one-way, two pairs joined, cycle with undefined tails — each under every permutation and every map rotation", "schemas": "2 with <=2 relation fields each, 3 with <=1 (thorough tier only) whose targets range over all schemas of the set, an undefined type, or none",
                "orders": "every permutation of the definitions for the second run; every map range takes every rotation of the slot order (what go1.23 produces for maps of <=8 entries), independently per range and per run"},
-    "assumptions": ["generateSetID (json.Marshal + sha256 CID) is an injective function of the sorted set content (modelled inside the solver run; the real function runs natively)",
+    "assumptions": ["inside generateSetID, json.Marshal is an injective function of the value and the SHA-256 CID an injective function of the bytes (both replaced inside the solver run: canonical serialisation, identity multihash; the real ones run natively); the rest of generateSetID runs for real",
                     "map iteration orders of the runtime for small maps are rotations of the slot order"],
     "outside_claim": ["document ids (client.Document.Bytes, canonical CBOR, CID, UUIDv5)", "collection ids assigned by sequences", "schemas added in several calls"],
 }
